@@ -417,13 +417,13 @@ class Executor:
         if isinstance(v, str):
             return {"str"}
         if isinstance(v, tuple):
-            return {"tuple"}
+            return {"tuple", "Sequence", "Iterable"}
         if isinstance(v, Opaque):
             return {v.tag}
         if isinstance(v, Ref):
             h = self.heap[v.id]
             if isinstance(h, (AList, CList, GList)):
-                return {"list"}
+                return {"list", "Sequence", "Iterable"}
             if isinstance(h, (ADict, CDict)):
                 return {"dict"}
             if isinstance(h, ASet):
